@@ -140,8 +140,9 @@ type Leaf struct {
 
 func rv(x any) reflect.Value { return reflect.ValueOf(x) }
 
-func intText(v reflect.Value) string   { return strconv.FormatInt(v.Int(), 10) }
-func uintText(v reflect.Value) string  { return strconv.FormatUint(v.Uint(), 10) }
+func intText(v reflect.Value) string  { return strconv.FormatInt(v.Int(), 10) }
+func uintText(v reflect.Value) string { return strconv.FormatUint(v.Uint(), 10) }
+
 // floatText prints the exact (widened) value, so that the text denotes the
 // float32 itself and not a shorter decimal that merely rounds to it.
 func floatText(v reflect.Value) string { return strconv.FormatFloat(v.Float(), 'g', -1, 64) }
@@ -496,7 +497,7 @@ func buildLeaves() []*Leaf {
 			Gen:  func(r *fw.Rand, uniq int) reflect.Value { return rv(Cx2(complex(float64(uniq), -0.5))) }},
 		// a named type over time.Duration is a plain named int64 to dials: integer text
 		{Name: "Wait", Type: reflect.TypeOf(Wait(0)), Caps: CapEnv | CapFlag | CapNamed, Text: intText,
-			Gen:  func(r *fw.Rand, uniq int) reflect.Value { return rv(Wait(time.Duration(uniq) * time.Second)) }},
+			Gen: func(r *fw.Rand, uniq int) reflect.Value { return rv(Wait(time.Duration(uniq) * time.Second)) }},
 		{Name: "Names", Type: reflect.TypeOf(Names{}), Caps: CapEnv | CapNamed | CapRef,
 			Text: func(v reflect.Value) string { return quoteList([]string(v.Interface().(Names))) },
 			Gen:  func(r *fw.Rand, uniq int) reflect.Value { return rv(Names{GenString(r, uniq), "n"}) }},
@@ -514,7 +515,9 @@ func buildLeaves() []*Leaf {
 				}
 				return strings.Join(p, ",")
 			},
-			Gen: func(r *fw.Rand, uniq int) reflect.Value { return rv(Labels{"l" + strconv.Itoa(uniq): GenString(r, uniq)}) }},
+			Gen: func(r *fw.Rand, uniq int) reflect.Value {
+				return rv(Labels{"l" + strconv.Itoa(uniq): GenString(r, uniq)})
+			}},
 		{Name: "Levels", Type: reflect.TypeOf(Levels{}), Caps: CapEnv | CapNamed | CapRef,
 			Text: func(v reflect.Value) string {
 				p := []string{}
